@@ -149,7 +149,7 @@ def run(res, ctx):
     seen, samples = set(), []
     corr = []
     # ---- (a) library entry point, in-range values incl. extremes; model predicts every panic
-    n = 1800 if tier == "quick" else 10000
+    n = 1800 if tier == "quick" else 50000
     done = 0
     while done < n:
         cases = []
